@@ -27,6 +27,7 @@ type replayFile struct {
 	Tier    int               `json:"tier"`
 	Params  map[string]int    `json:"params"`
 	Extra   map[string]string `json:"extra"`
+	Want    int               `json:"want"` // witness quota of the harness (ReplayMain)
 }
 
 // Outcome of a native run, inspected by the replay test driver.
